@@ -85,3 +85,174 @@ class EnvWait:
         while not os.path.exists(self.wait_for) and time.time() - t0 < 20:
             time.sleep(0.02)
         return _observe(self)
+
+
+# ---------------------------------------------------------------------------------------------------------------------
+# Task types whose filter_context is INHERITED (not defined in the decorated class's own body), or overrides an
+# inherited one, or is absent all the way up (identity).  The filter each of them must end up with is written down
+# independently in harness/props/c16.py (FILTER_MODEL); nothing here is consulted for the expectation.
+
+class SubsetFilter:
+    """plain (undecorated) mixin: per-parameter subset"""
+
+    def filter_context(self, context):
+        return {key: context[key] for key in self.keys if key in context}
+
+
+class DepthFilter:
+    """plain mixin with the non-idempotent filter (changes an empty context too)"""
+
+    def filter_context(self, context):
+        return dict(context, depth=context.get('depth', 0) + 1)
+
+
+class PlainBase:
+    """plain base class that has nothing to do with contexts"""
+
+    def describe(self):
+        return type(self).__name__
+
+
+class DeepSubsetFilter(SubsetFilter):
+    """plain class between the mixin and the task type: the filter comes from a (plain) grandparent"""
+
+
+@labtech.task(cache=None)
+class EnvMixFirst(SubsetFilter, PlainBase):
+    """filter from a plain mixin listed BEFORE another base"""
+    k: int
+    keys: tuple
+    deps: tuple = ()
+
+    def run(self):
+        return _observe(self)
+
+
+@labtech.task(cache=None)
+class EnvMixLast(PlainBase, SubsetFilter):
+    """filter from a plain mixin listed AFTER another base"""
+    k: int
+    keys: tuple
+    deps: tuple = ()
+
+    def run(self):
+        return _observe(self)
+
+
+@labtech.task(cache=None)
+class EnvMixGrand(DeepSubsetFilter, PlainBase):
+    """filter from a plain grandparent"""
+    k: int
+    keys: tuple
+    deps: tuple = ()
+
+    def run(self):
+        return _observe(self)
+
+
+@labtech.task(cache=None)
+class EnvMixDepth(PlainBase, DepthFilter):
+    """non-idempotent filter from a plain mixin"""
+    k: int
+    deps: tuple = ()
+
+    def run(self):
+        return _observe(self)
+
+
+@labtech.task(cache=None)
+class EnvSubChild(EnvSub):
+    """re-decorated subclass of a task type that defines the filter (run() inherited too)"""
+    extra: int = 0
+
+
+@labtech.task(cache=None)
+class EnvSubGrandChild(EnvSubChild):
+    """filter from a grandparent task type, through a parent task type"""
+    extra2: int = 0
+
+    def run(self):
+        return _observe(self)
+
+
+class EnvSubMid(EnvSub):
+    """NOT decorated: plain subclass of a task type, only used as a base"""
+
+
+@labtech.task(cache=None)
+class EnvSubMidChild(EnvSubMid):
+    """filter from a grandparent task type, through an undecorated class"""
+    extra: int = 0
+
+    def run(self):
+        return _observe(self)
+
+
+@labtech.task(cache=None)
+class EnvMixChild(EnvMixFirst):
+    """parent task type inherited the filter itself: it comes from the plain mixin two levels up"""
+    extra: int = 0
+
+
+@labtech.task(cache=None)
+class EnvCountChild(EnvCount):
+    """inherits the non-idempotent filter from its parent task type"""
+    extra: int = 0
+
+    def run(self):
+        return _observe(self)
+
+
+@labtech.task(cache=None)
+class EnvSubOverride(EnvSub):
+    """OVERRIDES the inherited filter: everything EXCEPT the named keys"""
+    extra: int = 0
+
+    def filter_context(self, context):
+        return {key: value for key, value in context.items() if key not in self.keys}
+
+    def run(self):
+        return _observe(self)
+
+
+@labtech.task(cache=None)
+class EnvOverrideChild(EnvSubOverride):
+    """inherits the overriding filter (not the grandparent's original one)"""
+    extra2: int = 0
+
+
+@labtech.task(cache=None)
+class EnvCountOverride(EnvCount):
+    """overrides the inherited non-idempotent filter with another one"""
+    extra: int = 0
+
+    def filter_context(self, context):
+        return dict(context, depth=context.get('depth', 0) + 10)
+
+    def run(self):
+        return _observe(self)
+
+
+@labtech.task(cache=None)
+class EnvLeafChild(EnvLeaf):
+    """subclass of a task type that defines no filter: identity"""
+    deps: tuple = ()
+
+    def run(self):
+        return _observe(self)
+
+
+@labtech.task(cache=None)
+class EnvLeafGrandChild(EnvLeafChild):
+    """identity two levels down"""
+    extra: int = 0
+
+
+@labtech.task(cache=None)
+class EnvPlainChild(PlainBase):
+    """plain base without a filter anywhere: identity"""
+    k: int
+    deps: tuple = ()
+
+    def run(self):
+        return _observe(self)
